@@ -26,6 +26,8 @@ for i in range(1, 21):
         out.append("**Regenerated from the source on every run.** %s\n" % "; ".join(P["generated"]))
         out.append("**Correspondence (hand model vs implementation).**\n" + "\n".join("* " + c for c in P["correspondences"]) + "\n")
         out.append("**Operations explored.** %s\n" % P["rule"])
+        cfgs = {"default": "default features", "simd": "`simd-accel` (nightly)", "lessslow": "`less-slow-*` encode tables", "fast": "`fast-legacy-encode`"}
+        out.append("**Harness configurations (the crate is rebuilt from /repo's working tree for each).** %s\n" % ", ".join(cfgs.get(c, c) for c in P.get("harness_cfgs", ["default"])))
         if P.get("assumptions"):
             out.append("**Assumptions.**\n" + "\n".join("* " + a for a in P["assumptions"]) + "\n")
         if P.get("partial"):
